@@ -28,7 +28,7 @@ pub mod apistep;
 
 #[cfg(all(kani, any(feature = "c01", feature = "c02")))]
 pub mod p_c01;
-#[cfg(all(kani, feature = "c02"))]
+#[cfg(all(kani, any(feature = "c02", feature = "c09")))]
 pub mod p_c02;
 #[cfg(all(kani, any(feature = "c03", feature = "c08")))]
 pub mod p_c03;
@@ -40,6 +40,8 @@ pub mod p_c06;
 pub mod p_c07;
 #[cfg(all(kani, feature = "c08"))]
 pub mod p_c08;
+#[cfg(all(kani, feature = "c09"))]
+pub mod p_c09;
 #[cfg(all(kani, any(feature = "c10", feature = "c11")))]
 pub mod p_c10;
 #[cfg(all(kani, feature = "c12"))]
